@@ -630,26 +630,19 @@ impl<F: Read + Write + Seek> Package<F> {
         if self.tables.contains_key(&table_name) {
             already_exists!("Table {:?} already exists", table_name);
         }
-        self.insert_rows(
-            Insert::into(COLUMNS_TABLE_NAME).rows(
-                columns
-                    .iter()
-                    .enumerate()
-                    .map(|(index, column)| {
-                        vec![
-                            Value::Str(table_name.clone()),
-                            Value::Int(1 + index as i32),
-                            Value::Str(column.name().to_string()),
-                            Value::Int(column.bitfield()),
-                        ]
-                    })
-                    .collect(),
-            ),
-        )?;
-        self.insert_rows(
-            Insert::into(TABLES_TABLE_NAME)
-                .row(vec![Value::Str(table_name.clone())]),
-        )?;
+        let columns_rows: Vec<Vec<Value>> = columns
+            .iter()
+            .enumerate()
+            .map(|(index, column)| {
+                vec![
+                    Value::Str(table_name.clone()),
+                    Value::Int(1 + index as i32),
+                    Value::Str(column.name().to_string()),
+                    Value::Int(column.bitfield()),
+                ]
+            })
+            .collect();
+        let tables_rows = vec![vec![Value::Str(table_name.clone())]];
         let validation_rows: Vec<Vec<Value>> = columns
             .iter()
             .map(|column| {
@@ -691,6 +684,13 @@ impl<F: Read + Write + Seek> Package<F> {
                 ]
             })
             .collect();
+        // Make sure that the catalog tables can describe the new table before
+        // changing anything.
+        self.check_catalog_rows(COLUMNS_TABLE_NAME, &columns_rows)?;
+        self.check_catalog_rows(TABLES_TABLE_NAME, &tables_rows)?;
+        self.check_catalog_rows(VALIDATION_TABLE_NAME, &validation_rows)?;
+        self.insert_rows(Insert::into(COLUMNS_TABLE_NAME).rows(columns_rows))?;
+        self.insert_rows(Insert::into(TABLES_TABLE_NAME).rows(tables_rows))?;
         let long_string_refs = self.string_pool.long_string_refs();
         let table = Table::new(table_name.clone(), columns, long_string_refs);
         self.tables.insert(table_name, table);
@@ -699,6 +699,33 @@ impl<F: Read + Write + Seek> Package<F> {
             self.insert_rows(
                 Insert::into(VALIDATION_TABLE_NAME).rows(validation_rows),
             )?;
+        }
+        Ok(())
+    }
+
+    /// Returns an error if the given rows could not be inserted into the
+    /// named catalog table because a value is not valid for its column.
+    fn check_catalog_rows(
+        &self,
+        table_name: &str,
+        rows: &[Vec<Value>],
+    ) -> io::Result<()> {
+        if let Some(table) = self.tables.get(table_name) {
+            for values in rows.iter() {
+                for (column, value) in
+                    table.columns().iter().zip(values.iter())
+                {
+                    if !column.is_valid_value(value) {
+                        invalid_input!(
+                            "Cannot describe the table in {:?}: {} is not a \
+                             valid value for column {:?}",
+                            table_name,
+                            value,
+                            column.name()
+                        );
+                    }
+                }
+            }
         }
         Ok(())
     }
